@@ -5,7 +5,7 @@ import LMV.Driver.Util
 namespace LMV.Driver.C04
 open LMV LMV.Driver
 
-def ops : List String := ["c04"]
+def ops : List String := ["c04", "c04isa"]
 
 /-- observation after each op: rows, len, wrap, hash of all cells (row-major), hash of `index i`
     for all i < len, symbol counts; plus the cells themselves when there are at most 128 -/
@@ -54,9 +54,20 @@ def simd32 (N : Nat) (backend : String) (s : List Nat) (old : Striped 32) : Stri
   if backend == "avx2" then StripeAvx2.stripe N (fun _ => 255) s old
   else StripeAvx2.dispatch N (fun _ => 255) (armOf backend) s old
 
+/-- ISA validation: `c04isa <unpack e hi | perm imm _> <a: 32 bytes> <b: 32 bytes>` through LMV.Isa -/
+def handleIsa (toks : List String) : String :=
+  match toks with
+  | _ :: kind :: p1 :: p2 :: rest =>
+    let a := (rest.take 32).map parseNat!
+    let b := ((rest.drop 32).take 32).map parseNat!
+    let op : Isa.Op := if kind == "unpack" then .unpack (parseNat! p1) (parseNat! p2 == 1) else .perm (parseNat! p1)
+    joinNat ((List.range 32).map fun i => Isa.apply 0 op.src (fun k => a.getD k 0) (fun k => b.getD k 0) i)
+  | _ => "bad-case"
+
 /-- `c04 <dna|protein> <C> <ops…>` -/
 def handle (toks : List String) : String :=
   match toks with
+  | "c04isa" :: _ => handleIsa toks
   | _ :: alpha :: c :: rest =>
     let A := if alpha == "dna" then dna else protein
     let N := A.dflt
